@@ -381,6 +381,29 @@ pub fn rand_cfg(rng: &mut Rng, max_files: u64, max_len: usize) -> Cfg {
     for _ in 0..nfiles {
         cfg.files.push(rand_file(rng, &mut used, max_len));
     }
+    // names that differ only in a leading dot of the last component (hidden files), also directly below the root
+    if !cfg.files.is_empty() && rng.chance(1, 2) {
+        let k = rng.below(cfg.files.len() as u64) as usize;
+        let path = cfg.files[k].dest.trim_start_matches('.').to_string();
+        if let Some((dir, name)) = path.rsplit_once('/') {
+            let twin = format!("{dir}/.{name}");
+            if !used.contains(&twin) && cfg.files[k].mode.map_or(true, |m| m & 0o170000 != 0o040000) {
+                used.push(twin.clone());
+                let mut f = rand_file(rng, &mut used, max_len);
+                f.dest = if rng.chance(1, 2) { format!(".{twin}") } else { twin };
+                cfg.files.push(f);
+            }
+        }
+    }
+    if max_files > 0 && rng.chance(1, 3) {
+        let n = rng.below(9);
+        for name in [format!("/.rc{n}"), format!("/rc{n}")] {
+            used.push(name.clone());
+            let mut f = rand_file(rng, &mut used, max_len);
+            f.dest = name;
+            cfg.files.push(f);
+        }
+    }
     cfg.compression = match rng.below(7) {
         0 => None,
         1 => Some(("none".into(), None)),
